@@ -714,4 +714,101 @@ theorem replaceStep_empty_total (S : Schema) (hdet : DetS S) (hfill : FillersOK 
     | true => exact ⟨_, rfl⟩
     | false => exact fitterFit_empty_ok S hdet hfill hrf hrt hv hattrs htop _
 
+/-! ### `delete_range`: the widening goes through as well -/
+
+theorem nodeCanReplace_some (S : Schema) {doc : Node} {f : Nat} {rf : RPos} (Rf : Resolved doc f rf)
+    (hv : S.checkNode doc = true) (k : Nat) (hk : k ≤ rf.depth) (to : Nat) (repl : List Node) :
+    ∃ b, S.nodeCanReplace (rf.node k) (rf.index k) to repl = some b := by
+  unfold Schema.nodeCanReplace
+  have hidx := (Rf.entry k hk).idx_le
+  rw [if_neg (by unfold RPos.index RPos.node; omega)]
+  unfold Schema.canReplace
+  obtain ⟨q, hq⟩ := contentMatchAt_of_check S (rf.node k) (Rf.node_check hv k hk) (rf.index k)
+  rw [hq]
+  simp only
+  split
+  · exact ⟨false, rfl⟩
+  · split
+    · exact ⟨false, rfl⟩
+    · exact ⟨_, rfl⟩
+
+theorem before_some (r : RPos) (d : Nat) (h1 : 1 ≤ d) (hd : d ≤ r.depth) : ∃ b, r.before d = some b := by
+  unfold RPos.before
+  rw [if_neg (by omega), if_neg (by omega), if_pos hd]
+  exact ⟨_, rfl⟩
+
+theorem after_some (r : RPos) (d : Nat) (h1 : 1 ≤ d) (hd : d ≤ r.depth) : ∃ b, r.after d = some b := by
+  unfold RPos.after
+  rw [if_neg (by omega), if_neg (by omega), if_pos hd]
+  exact ⟨_, rfl⟩
+
+theorem deleteRangeCovered_some (S : Schema) {doc : Node} {f : Nat} {rf rt : RPos} (Rf : Resolved doc f rf)
+    (hv : S.checkNode doc = true) : ∀ (ds : List Nat), (∀ d ∈ ds, d ≤ rf.depth ∧ d ≤ rt.depth) →
+    ∃ r, deleteRangeCovered S rf rt ds = some r
+  | [], _ => ⟨none, rfl⟩
+  | depth :: rest, h => by
+    obtain ⟨hd1, hd2⟩ := h depth (by simp)
+    have ih := deleteRangeCovered_some S Rf hv rest (fun d hd => h d (by simp [hd]))
+    unfold deleteRangeCovered
+    simp only
+    split
+    · exact ⟨_, rfl⟩
+    · have hsec : ∃ b, (if depth == 0 then some false
+          else if rest.isEmpty then some true
+          else S.nodeCanReplace (rf.node (depth - 1)) (rf.index (depth - 1)) (rt.indexAfter (depth - 1)) []) = some b ∧
+          (b = true → 1 ≤ depth) := by
+        by_cases h0 : depth = 0
+        · exact ⟨false, by simp [h0], by simp⟩
+        · rw [if_neg (by simpa using h0)]
+          split
+          · exact ⟨true, rfl, fun _ => by omega⟩
+          · obtain ⟨b, hb⟩ := nodeCanReplace_some S Rf hv (depth - 1) (by omega) (rt.indexAfter (depth - 1)) []
+            exact ⟨b, hb, fun _ => by omega⟩
+      obtain ⟨b, hb, hb1⟩ := hsec
+      rw [hb]
+      cases b with
+      | false => exact ih
+      | true =>
+        simp only
+        obtain ⟨x, hx⟩ := before_some rf depth (hb1 rfl) hd1
+        obtain ⟨y, hy⟩ := after_some rt depth (hb1 rfl) hd2
+        rw [hx, hy]
+        exact ⟨_, rfl⟩
+
+theorem deleteRangeOuter_some (rf rt : RPos) (f t bound : Nat) (hb : bound ≤ rf.depth) :
+    ∀ n, n ≤ bound → ∃ r, deleteRangeOuter rf rt f t bound n = some r
+  | 0, _ => ⟨none, rfl⟩
+  | n + 1, hn => by
+    unfold deleteRangeOuter
+    simp only
+    split
+    · obtain ⟨x, hx⟩ := before_some rf (bound - n) (by omega) (by omega)
+      rw [hx]
+      exact ⟨_, rfl⟩
+    · exact deleteRangeOuter_some rf rt f t bound hb n (by omega)
+
+/-- `delete_range` always arrives at its call of `delete` on a valid document -/
+theorem deleteRangeTarget_some (S : Schema) (doc : Node) (f t : Nat) (hv : S.checkNode doc = true)
+    (hf : f ≤ fsize doc.kids) (ht : t ≤ fsize doc.kids) : ∃ p, deleteRangeTarget S doc f t = some p := by
+  obtain ⟨rf, hrf⟩ := resolve_isSome doc f hf
+  obtain ⟨rt, hrt⟩ := resolve_isSome doc t ht
+  have Rf := resolve_resolved hrf
+  have Rt := resolve_resolved hrt
+  unfold deleteRangeTarget
+  simp only [hrf, hrt]
+  unfold deleteRangeTargetR
+  obtain ⟨r, hr⟩ := deleteRangeCovered_some S Rf hv (rt := rt) (coveredDepthsR S rf rt) (fun d hd => by
+    obtain ⟨h1, h2, _, _⟩ := covered_tight S Rf Rt d hd
+    exact ⟨h1, h2⟩)
+  rw [hr]
+  cases r with
+  | some p => exact ⟨p, rfl⟩
+  | none =>
+    simp only
+    obtain ⟨r2, hr2⟩ := deleteRangeOuter_some rf rt f t (min rf.depth rt.depth) (Nat.min_le_left _ _) _ (Nat.le_refl _)
+    rw [hr2]
+    cases r2 with
+    | some p => exact ⟨p, rfl⟩
+    | none => exact ⟨_, rfl⟩
+
 end PM
